@@ -229,9 +229,21 @@ class Gen:
                 # a colliding counter does not occur in its own bounds (the order "assign start, then evaluate
                 # the upper bound" is an implementation detail the language does not define)
                 benv0 = [{x: t for x, t in sc.items() if not (collide and x == name)} for sc in env]
-                a = ('int', r.randint(0, 2)) if r.random() < 0.7 else self.expr(benv0, 'int', 1, in_fn)
-                b = ('int', r.randint(1, 5)) if r.random() < 0.7 else self.expr(benv0, 'int', 1, in_fn)
-                step = None if r.random() < 0.6 else ('int', r.randint(1, 3))
+                lit_only = 2.0 if collide else 0.7      # (calls could read the counter through a capture)
+                a = ('int', r.randint(0, 2)) if r.random() < lit_only else self.expr(benv0, 'int', 1, in_fn)
+                b = ('int', r.randint(1, 5)) if r.random() < lit_only else self.expr(benv0, 'int', 1, in_fn)
+                step = None
+                if r.random() >= 0.5:
+                    ivs_ = [x for x in self.vars_of(benv0, 'int')]
+                    kk = r.random()
+                    if kk < 0.45 or not ivs_:
+                        step = ('int', r.randint(1, 3))
+                    elif kk < 0.75:
+                        # a compound, non-constant expression whose value is a small positive number
+                        step = ('bin', '+', ('bin', '*', ('var', r.choice(ivs_)), ('int', 0)), ('int', r.randint(1, 3)))
+                    else:
+                        v_ = r.choice(ivs_)
+                        step = ('bin', '+', ('bin', '-', ('var', v_), ('var', v_)), ('bin', '*', ('int', r.randint(1, 2)), ('bin', '+', ('bin', '*', ('var', v_), ('int', 0)), ('int', 1))))
                 benv = env + [{name: 'int'}] if (named and not collide) else env
                 body = self.block(benv, depth - 1, 1, in_fn)
                 return pre + [('from', a, b, r.random() < 0.4, step, name, collide, body)]
@@ -667,6 +679,8 @@ def skeletons(depth, in_loop, in_fn, counter=[0]):
         j = fresh('j')
         yield [('from', ('int', 0), ('int', 3), False, None, j, False, [('asg', 'k', None, ('var', j))] + child + tail)]
         yield [('from', ('int', 1), ('var', 'n'), True, ('int', 2), None, False, [('asg', 'k', None, ('bin', '+', ('var', 'k'), ('int', 1)))] + child + tail)]
+        j2 = fresh('j')
+        yield [('from', ('int', 0), ('int', 4), False, ('bin', '+', ('bin', '*', ('var', 'n'), ('int', 0)), ('int', 2)), j2, False, [('asg', 'k', None, ('var', j2))] + child + tail)]
 
 
 def skeleton_programs(depth, per_file=12):
